@@ -273,24 +273,19 @@ class PyArrowMissingValueFeatureGroup(MissingValueFeatureGroup):
                     # Use the first index with maximum count
                     if max_indices:
                         group_value = value_counts.field("values")[max_indices[0]].as_py()
-            elif imputation_method == "ffill":
-                # For ffill, we need to find the last non-null value before this row in the group
-                valid_indices = pc.indices_nonzero(pc.is_valid(group_data))
-                if len(valid_indices) > 0:
-                    # Find the largest valid index that is less than the current index
-                    valid_indices_before = [idx for idx in valid_indices.to_pylist() if idx < i]
-                    if valid_indices_before:
-                        last_valid_idx = max(valid_indices_before)
-                        group_value = group_data[last_valid_idx].as_py()
-            elif imputation_method == "bfill":
-                # For bfill, we need to find the first non-null value after this row in the group
-                valid_indices = pc.indices_nonzero(pc.is_valid(group_data))
-                if len(valid_indices) > 0:
-                    # Find the smallest valid index that is greater than the current index
-                    valid_indices_after = [idx for idx in valid_indices.to_pylist() if idx > i]
-                    if valid_indices_after:
-                        next_valid_idx = min(valid_indices_after)
-                        group_value = group_data[next_valid_idx].as_py()
+            elif imputation_method in ("ffill", "bfill"):
+                # Row numbers (in the table) of the rows of this group that hold a value, in ascending order
+                group_rows = pc.indices_nonzero(pc.and_(group_mask, pc.is_valid(source_column))).to_pylist()
+                if imputation_method == "ffill":
+                    # the last valid row of the group before this row
+                    rows_before = [row for row in group_rows if row < i]
+                    if rows_before:
+                        group_value = source_column[rows_before[-1]].as_py()
+                else:
+                    # the first valid row of the group after this row
+                    rows_after = [row for row in group_rows if row > i]
+                    if rows_after:
+                        group_value = source_column[rows_after[0]].as_py()
 
             # If the group imputation value is None, fall back to the overall value
             if group_value is None:
